@@ -140,6 +140,11 @@ def case_twin(ctx, spec):
                 mutated_since_next = False
             elif op[0] != "update":
                 mutated_since_next = True
+            # a sub-strategy may be created (parent=) while the tree still has the pending change of the previous operation: the
+            # refresh is left to the first read after the creation
+            if k + 1 < len(ops) and ops[k + 1][0] == "spawn" and op[0] not in ("next", "update"):
+                labs.add("spawn_on_stale_tree")
+                continue
             # the very first read after the operation: a generated property of a generated node on the stale tree A must equal
             # the same read on B after an explicit update (whichever node is asked first has to refresh the whole tree correctly)
             fr = spec.get("first_reads")
